@@ -296,6 +296,23 @@ def run_query_case(case):
                     if ev.get("how", "close") == "close":
                         it.close()
                     del it
+            elif op == "abandon":
+                # k results are taken and the iterator is closed; what they are is not recorded (used where the results are
+                # fresh instances), only that nothing was raised
+                it = iter(b.query.evaluate())
+                rec["taken"] = 0
+                try:
+                    for _ in range(ev["k"]):
+                        try:
+                            inst = next(it)
+                            rec["taken"] += 1
+                            before.add(id(inst))
+                            heap.append(inst)
+                        except StopIteration:
+                            break
+                finally:
+                    it.close()
+                    del it
             elif op == "the":
                 rec["out"], rec["row"] = "value", []
                 try:
